@@ -616,7 +616,7 @@ func CheckStructure(db objects.Store, sum []byte) {
 	}
 	enc := objects.NewStrListEncoder(false)
 	for i, blk := range blocks {
-		if len(blk) > 6 || i >= len(tbl.BlockIndices) {
+		if i >= len(tbl.BlockIndices) {
 			continue
 		}
 		idx, _, err := objects.GetBlockIndex(db, nil, tbl.BlockIndices[i])
@@ -626,6 +626,9 @@ func CheckStructure(db objects.Store, sum []byte) {
 		}
 		zzverif.Assert("block-index-has-one-entry-per-row", idx.Len() == len(blk))
 		for p, row := range blk {
+			if len(blk) > 6 && p != 0 && p != len(blk)-1 {
+				continue // large blocks: first and last row only
+			}
 			rowSum := meow.Checksum(0, enc.Encode(row))
 			keySum := rowSum
 			if len(pk) > 0 {
@@ -642,6 +645,9 @@ func CheckStructure(db objects.Store, sum []byte) {
 			if rs != nil {
 				zzverif.Assert("block-index-maps-key-to-row-hash-and-position", bytes.Equal(rs, rowSum[:]) && int(off) == p)
 			}
+		}
+		if len(blk) > 6 {
+			continue
 		}
 		idx2, err := objects.IndexBlock(objects.NewStrListEncoder(true), meow.New(0), blk, pk)
 		zzverif.Assert("index-from-rows-builds", err == nil)
